@@ -40,12 +40,13 @@ type Scenario struct {
 }
 
 type SourceSpec struct {
-	Kind     string   `json:"kind"` // static | watch | blank | twatch | tstatic | file
-	Init     *Part    `json:"init,omitempty"`
-	ValueErr bool     `json:"value_err,omitempty"`
-	WatchErr bool     `json:"watch_err,omitempty"`
-	Manglers []string `json:"manglers,omitempty"`
-	Wrapped  bool     `json:"wrapped,omitempty"` // behind sourcewrap.NewTransformingSource (no manglers): must behave exactly as without
+	Kind      string   `json:"kind"` // static | watch | blank | twatch | tstatic | file
+	Init      *Part    `json:"init,omitempty"`
+	ValueErr  bool     `json:"value_err,omitempty"`
+	WatchErr  bool     `json:"watch_err,omitempty"`
+	Manglers  []string `json:"manglers,omitempty"`
+	Wrapped   bool     `json:"wrapped,omitempty"`    // behind sourcewrap.NewTransformingSource (no manglers): must behave exactly as without
+	FuncTyped bool     `json:"func_typed,omitempty"` // a static source that is a func value with a Value method (an adapter in the http.HandlerFunc style): comparable only by panicking
 }
 
 type ClientSpec struct {
@@ -412,6 +413,10 @@ func genCore(prop string, seed uint64, faulty bool) *Scenario {
 	if k.share > 0 && g.pct(k.share) {
 		d.P, d.NestX, d.Share = ip(41), ip(41), true
 	}
+	if g.pct(40) {
+		// the embedded struct's own M: shadowed by CfgCore.M, reachable as cfg.Emb.M
+		d.EmbM = map[string]int{words[g.r.IntN(len(words))]: 71, "emb": 72}
+	}
 	sc.Defaults = *d
 
 	nWatch := g.in(k.watchMin, k.watchMax)
@@ -451,6 +456,9 @@ func genCore(prop string, seed uint64, faulty bool) *Scenario {
 		s := SourceSpec{Kind: kind}
 		if (kind == "blank" && g.pct(30)) || (kind == "watch" && g.pct(8)) {
 			s.Wrapped = true
+		}
+		if kind == "static" && g.pct(20) {
+			s.FuncTyped = true
 		}
 		if kind != "blank" {
 			s.Init = g.part(35, initInvalid, false)
